@@ -1,7 +1,24 @@
 package main
 
 // Checks that are not weakest-precondition obligations of one function:
-// table checks over package initialisers, finite enumerations, bounded stand-ins.
+// table checks over package initialisers and finite enumerations. They are
+// decided here (exhaustively, in Go) and reported as obligations of kind
+// "table"; the evidence says so (backend "enumeration").
+
+import (
+	"encoding/xml"
+	"fmt"
+	"go/ast"
+	"go/constant"
+	"go/token"
+	"go/types"
+	"regexp"
+	"sort"
+	"strconv"
+	"strings"
+
+	"golang.org/x/tools/go/ssa"
+)
 
 type extraResult struct {
 	obls        []*Obl
@@ -11,6 +28,336 @@ type extraResult struct {
 	coverage    map[string]interface{}
 }
 
+func (e *Engine) directObl(name string, props []string, ok bool, detail string) *Obl {
+	o := &Obl{Fn: strings.SplitN(name, "#", 2)[0], Name: name, Kind: "table", Label: name, Props: props, Direct: true, Contract: detail}
+	if ok {
+		o.Res = SolverResult{Status: "unsat", Solver: "enumeration", Output: detail}
+	} else {
+		o.Res = SolverResult{Status: "sat", Solver: "enumeration", Output: detail}
+	}
+	return o
+}
+
+type initEntry struct {
+	key   string // constant key, printed
+	val   string // constant value or function name
+	isFn  bool
+	fn    *ssa.Function
+}
+
+// readInitMap reconstructs a package-level map literal from the package initialiser's SSA.
+func (e *Engine) readInitMap(pkgPath, global string) ([]initEntry, error) {
+	sp := e.spkgs[pkgPath]
+	if sp == nil {
+		return nil, fmt.Errorf("package %s not loaded", pkgPath)
+	}
+	init := sp.Func("init")
+	if init == nil {
+		return nil, fmt.Errorf("no init in %s", pkgPath)
+	}
+	var mapVal ssa.Value
+	for _, b := range init.Blocks {
+		for _, in := range b.Instrs {
+			if st, ok := in.(*ssa.Store); ok {
+				if g, ok := st.Addr.(*ssa.Global); ok && g.Name() == global {
+					mapVal = st.Val
+				}
+			}
+		}
+	}
+	if mapVal == nil {
+		return nil, fmt.Errorf("initialiser of %s.%s not found", pkgPath, global)
+	}
+	var out []initEntry
+	for _, b := range init.Blocks {
+		for _, in := range b.Instrs {
+			mu, ok := in.(*ssa.MapUpdate)
+			if !ok || mu.Map != mapVal {
+				continue
+			}
+			ent := initEntry{}
+			kc, ok := mu.Key.(*ssa.Const)
+			if !ok {
+				return nil, fmt.Errorf("%s.%s: non-constant key %s", pkgPath, global, mu.Key)
+			}
+			if kc.Value.Kind() == constant.String {
+				ent.key = constant.StringVal(kc.Value)
+			} else {
+				ent.key = kc.Value.ExactString()
+			}
+			v := mu.Value
+			if ct, ok := v.(*ssa.ChangeType); ok {
+				v = ct.X
+			}
+			switch x := v.(type) {
+			case *ssa.Const:
+				if x.Value == nil {
+					ent.val = "nil"
+				} else {
+					ent.val = x.Value.ExactString()
+				}
+			case *ssa.Function:
+				ent.val = e.canon(x)
+				ent.isFn = true
+				ent.fn = x
+			default:
+				ent.val = "?" + v.String()
+			}
+			out = append(out, ent)
+		}
+	}
+	return out, nil
+}
+
+type xmlDict struct {
+	Apps []struct {
+		ID       string `xml:"id,attr"`
+		Name     string `xml:"name,attr"`
+		Commands []struct {
+			Code  string `xml:"code,attr"`
+			Name  string `xml:"name,attr"`
+			Short string `xml:"short,attr"`
+		} `xml:"command"`
+		AVPs []struct {
+			Name string `xml:"name,attr"`
+			Code string `xml:"code,attr"`
+			Data struct {
+				Type string `xml:"type,attr"`
+			} `xml:"data"`
+		} `xml:"avp"`
+	} `xml:"application"`
+}
+
+var idRe = regexp.MustCompile(`-Id([-"s]|$)`)
+
+func mangleAVP(name string) string {
+	// autogen.sh: s/-Id\([-"s]\)/-ID\1/g ; s/-//g   (the name is followed by a quote in the XML)
+	n := idRe.ReplaceAllString(name, "-ID$1")
+	return strings.ReplaceAll(n, "-", "")
+}
+
+func (e *Engine) embeddedDictionaries() (map[string]string, error) {
+	out := map[string]string{}
+	for _, p := range e.pkgs {
+		if p.PkgPath != repoModule+"/diam/dict" {
+			continue
+		}
+		for _, f := range p.Syntax {
+			for _, d := range f.Decls {
+				gd, ok := d.(*ast.GenDecl)
+				if !ok || gd.Tok != token.VAR {
+					continue
+				}
+				for _, sp := range gd.Specs {
+					vs := sp.(*ast.ValueSpec)
+					for i, n := range vs.Names {
+						if !strings.HasSuffix(n.Name, "XML") || i >= len(vs.Values) {
+							continue
+						}
+						if bl, ok := vs.Values[i].(*ast.BasicLit); ok && bl.Kind == token.STRING {
+							s, err := strconv.Unquote(bl.Value)
+							if err == nil {
+								out[n.Name] = s
+							}
+						}
+					}
+				}
+			}
+		}
+	}
+	if len(out) == 0 {
+		return nil, fmt.Errorf("no embedded dictionaries found in package dict")
+	}
+	return out, nil
+}
+
+func constInt(scope *types.Scope, name string) (string, bool) {
+	o := scope.Lookup(name)
+	c, ok := o.(*types.Const)
+	if !ok {
+		return "", false
+	}
+	return c.Val().ExactString(), true
+}
+
 func (e *Engine) extraChecks(prop, tier string) *extraResult {
-	return &extraResult{coverage: map[string]interface{}{}}
+	r := &extraResult{coverage: map[string]interface{}{}}
+	if prop != "C17" && prop != "C04" && prop != "C03" {
+		return r
+	}
+	dtPath := repoModule + "/diam/datatype"
+	avail, err1 := e.readInitMap(dtPath, "Available")
+	dec, err2 := e.readInitMap(dtPath, "Decoder")
+	if err1 != nil || err2 != nil {
+		r.errors = append(r.errors, fmt.Sprintf("datatype.init#table: %v %v", err1, err2))
+		return r
+	}
+	decByID := map[string]initEntry{}
+	for _, d := range dec {
+		decByID[d.key] = d
+	}
+	if prop == "C17" {
+		// every data type name a dictionary may declare can be decoded
+		for _, a := range avail {
+			_, ok := decByID[a.val]
+			r.obls = append(r.obls, e.directObl("datatype.init#table.decoder_covers_available{"+a.key+"}", []string{"C17"}, ok,
+				fmt.Sprintf("Available[%q] = %s must be a key of Decoder", a.key, a.val)))
+		}
+	}
+	// the function-type contract of DecoderFunc is assumed at f(b) in datatype.Decode: every table entry must be a
+	// function that is verified against it
+	for _, d := range dec {
+		ok := d.isFn
+		detail := fmt.Sprintf("Decoder[%s] = %s", d.key, d.val)
+		if ok {
+			c := e.specs.Contracts[d.val]
+			ok = c != nil && hasProp(c.Impl, "datatype.DecoderFunc")
+			if !ok {
+				detail += " has no contract that implements datatype.DecoderFunc"
+			}
+		} else {
+			detail += " is not a function constant"
+		}
+		r.obls = append(r.obls, e.directObl("datatype.init#table.decoder_entry_under_contract{"+d.key+"}", []string{"C17", "C04", "C03"}, ok, detail))
+	}
+	if prop != "C17" {
+		return r
+	}
+	// parent application table (dict.parentAppIds): the literal the lookup contracts assume, and acyclic
+	par, err := e.readInitMap(repoModule+"/diam/dict", "parentAppIds")
+	if err != nil {
+		r.errors = append(r.errors, "dict.init#table.parent_table: "+err.Error())
+	} else {
+		want := map[string]string{"16777251": "4", "16777238": "4", "4": "1"}
+		ok := len(par) == len(want)
+		pm := map[string]string{}
+		for _, p := range par {
+			pm[p.key] = p.val
+			if want[p.key] != p.val {
+				ok = false
+			}
+		}
+		r.obls = append(r.obls, e.directObl("dict.init#table.parent_table_is_the_assumed_literal", []string{"C17"}, ok, fmt.Sprintf("parentAppIds = %v, contracts assume %v", pm, want)))
+		acyclic := true
+		for k := range pm {
+			seen := map[string]bool{}
+			for cur := k; ; {
+				if seen[cur] {
+					acyclic = false
+					break
+				}
+				seen[cur] = true
+				nx, ok := pm[cur]
+				if !ok {
+					break
+				}
+				cur = nx
+			}
+		}
+		r.obls = append(r.obls, e.directObl("dict.init#table.parent_chain_acyclic", []string{"C17"}, acyclic, fmt.Sprintf("%v", pm)))
+	}
+	// exported constants equal the codes in the embedded dictionaries
+	dicts, err := e.embeddedDictionaries()
+	if err != nil {
+		r.errors = append(r.errors, "dict.default#table.constants: "+err.Error())
+		return r
+	}
+	avpScope := e.byName["avp"].Scope()
+	diamScope := e.byName["diam"].Scope()
+	var names []string
+	for n := range dicts {
+		names = append(names, n)
+	}
+	sort.Strings(names)
+	total := 0
+	avpCodes := map[string]map[string]bool{} // mangled name -> codes found in the dictionaries
+	cmdCodes := map[string]map[string]bool{}
+	appIDs := map[string]map[string]bool{}
+	add := func(m map[string]map[string]bool, k, v string) {
+		if m[k] == nil {
+			m[k] = map[string]bool{}
+		}
+		m[k][v] = true
+	}
+	for _, n := range names {
+		var xd xmlDict
+		if err := xml.Unmarshal([]byte(dicts[n]), &xd); err != nil {
+			r.obls = append(r.obls, e.directObl("dict.default#table.parses{"+n+"}", []string{"C17"}, false, err.Error()))
+			continue
+		}
+		var badType []string
+		for _, app := range xd.Apps {
+			total++
+			add(appIDs, strings.ToUpper(strings.ReplaceAll(app.Name, " ", "_"))+"_APP_ID", app.ID)
+			for _, c := range app.Commands {
+				total++
+				add(cmdCodes, strings.ReplaceAll(c.Name, "-", ""), c.Code)
+			}
+			for _, a := range app.AVPs {
+				total++
+				add(avpCodes, mangleAVP(a.Name), a.Code)
+				found := false
+				for _, av := range avail {
+					if av.key == a.Data.Type {
+						found = true
+					}
+				}
+				if !found {
+					badType = append(badType, a.Name+":"+a.Data.Type)
+				}
+			}
+		}
+		r.obls = append(r.obls, e.directObl("dict.default#table.type_names_available{"+n+"}", []string{"C17"}, len(badType) == 0, fmt.Sprintf("type names not in datatype.Available: %v", first(badType, 5))))
+	}
+	// every exported constant is the code the embedded dictionaries give to that name
+	checkScope := func(label string, scope *types.Scope, codes map[string]map[string]bool, filter func(string, *types.Const) bool) {
+		var bad []string
+		n := 0
+		for _, name := range scope.Names() {
+			c, ok := scope.Lookup(name).(*types.Const)
+			if !ok || !c.Exported() || c.Val().Kind() != constant.Int || !filter(name, c) {
+				continue
+			}
+			n++
+			v := c.Val().ExactString()
+			cs := codes[name]
+			if cs == nil {
+				bad = append(bad, fmt.Sprintf("%s=%s: no dictionary entry of that name", name, v))
+			} else if !cs[v] || len(cs) != 1 {
+				var l []string
+				for k := range cs {
+					l = append(l, k)
+				}
+				sort.Strings(l)
+				bad = append(bad, fmt.Sprintf("%s=%s: dictionaries say %v", name, v, l))
+			}
+		}
+		r.obls = append(r.obls, e.directObl("dict.default#table."+label, []string{"C17"}, len(bad) == 0, fmt.Sprintf("%d constants; mismatches: %v", n, first(bad, 6))))
+		total += n
+	}
+	checkScope("avp_constants_equal_dictionary_codes", avpScope, avpCodes, func(n string, c *types.Const) bool {
+		return !strings.HasSuffix(n, "bit") && fileOf(e, c) == "codes.go"
+	})
+	checkScope("command_constants_equal_dictionary_codes", diamScope, cmdCodes, func(n string, c *types.Const) bool { return fileOf(e, c) == "commands.go" })
+	checkScope("application_constants_equal_dictionary_ids", diamScope, appIDs, func(n string, c *types.Const) bool { return fileOf(e, c) == "applications.go" })
+	r.coverage["exhaustive"] = true
+	r.coverage["enumerated_dictionary_entries"] = total
+	r.samples = append(r.samples, map[string]interface{}{"table": "datatype.Available", "entries": len(avail)}, map[string]interface{}{"table": "datatype.Decoder", "entries": len(dec)})
+	r.assumptions = append(r.assumptions, "table checks read the package initialisers' SSA (map literals with constant keys) and the XML string literals of dict/default.go; encoding/xml is trusted to parse them as dict.Load would")
+	return r
+}
+
+func first(s []string, n int) []string {
+	if len(s) > n {
+		return append(s[:n:n], fmt.Sprintf("... %d more", len(s)-n))
+	}
+	return s
+}
+
+func fileOf(e *Engine, o types.Object) string {
+	p := e.prog.Fset.Position(o.Pos()).Filename
+	if i := strings.LastIndex(p, "/"); i >= 0 {
+		return p[i+1:]
+	}
+	return p
 }
